@@ -12,4 +12,5 @@ INVARIANT DependentsNeverRun
 INVARIANT ErrorNamesEveryFailedJob
 INVARIANT FailureIsReported
 INVARIANT NeverCrashes
+INVARIANT ErrorOnlyIfFailure
 INVARIANT StartAfterPredsSucceeded
